@@ -57,7 +57,7 @@ def lin(t):
     if k == "bin" and t[1] in ("Add", "Sub"):
         a, b = lin(t[2]), lin(t[3])
         return a + b if t[1] == "Add" else a - b
-    if k == "cast":
+    if k == "cast" and len(t) == 4 and t[3] == "exact":
         return lin(t[1])
     if k == "call" and t[1].endswith("::len") and len(t[2]) == 1:
         x = t[2][0]
